@@ -11,6 +11,7 @@
 #include "rtrlib/spki/hashtable/ht-spkitable_private.h"
 
 #include <pthread.h>
+#include <openssl/err.h>
 #include <openssl/ec.h>
 #include <openssl/ecdsa.h>
 #include <openssl/evp.h>
@@ -534,7 +535,33 @@ static void run_sign_case(struct rng *r, long c, int maxhops)
 		memmove(sub.h, m.h + j, sizeof(struct hop) * (size_t)sub.n);
 		sub.target_as = j == 0 ? m.target_as : m.h[j - 1].asn;
 		b = to_lib(&sub, sub.n - 1);
+		if ((c + j) % 4 == 1) {
+			/* what this thread did with OpenSSL before is none of the signer's business: leave an entry in the
+			 * thread's error queue, the way a validation of a forged update does (r = s = 0 is well-formed DER that
+			 * ECDSA_verify rejects with EC_R_BAD_SIGNATURE), or any other library user in the same thread */
+			static const uint8_t ZSIG[8] = {0x30, 0x06, 0x02, 0x01, 0x00, 0x02, 0x01, 0x00};
+			struct mpath f = m;
+			struct mtable ft;
+			struct spki_table st;
+			struct rtr_socket src;
+			struct rtr_bgpsec *fb;
+
+			memcpy(f.h[0].sig, ZSIG, sizeof(ZSIG));
+			f.h[0].sig_len = sizeof(ZSIG);
+			gen_table(r, &f, keyidx, 0, &ft);
+			fb = to_lib(&f, f.n);
+			table_to_lib(&ft, &st, &src);
+			if (rtr_bgpsec_validate_as_path(fb, &st) == RTR_BGPSEC_VALID)
+				viol("C11", "C11:VALID-but-should-not:zero-signature", "a path whose newest signature is r = s = 0 validated as VALID");
+			rtr_mgr_bgpsec_free(fb);
+			spki_table_free(&st);
+			if (ERR_peek_error())
+				CNT("c12/signings_with_entries_in_the_openssl_error_queue");
+			else
+				ERR_raise(ERR_LIB_EC, EC_R_BAD_SIGNATURE);
+		}
 		rc = rtr_mgr_bgpsec_generate_signature(b, KEYS[keyidx[j]].priv, &ns);
+		ERR_clear_error();
 		CNT("c12/signatures_requested");
 		if (rc != RTR_BGPSEC_SUCCESS || !ns) {
 			snprintf(key, sizeof(key), "C12:generate-failed:rc%d", rc);
